@@ -106,7 +106,7 @@ Definition is_lt (c : comparison) : bool := match c with Lt => true | _ => false
 Lemma compare_agree a : forall t b, typed a t -> typed b t -> comparable t = true ->
   exists c, v_compare (erase a) (erase b) = Some c /\ py_eq a b = is_eq c /\ py_lt a b = is_lt c.
 Proof.
-  induction a as [z|z|z|z|s|s|s|s|b0| |x y IHx IHy|t0|x IHx|x t0 IHx|t0 x IHx|t0 l IHl|t0 l IHl|kt vt l IHl] using pval_ind';
+  induction a as [z|z|z|z|s|s|s|s|b0| |x y IHx IHy|t0|x IHx|x t0 IHx|t0 x IHx|t0 l IHl|t0 l IHl|kt vt l IHl|ta tb body] using pval_ind';
     intros t b Ha Hb Hc; pose proof Ha as Ha'; unfold typed in Ha'; destruct t; simpl in Ha'; try discriminate Ha';
     simpl in Hc; try discriminate Hc.
   - apply typed_int_inv in Hb as [w ->]. simpl. exists (Z.compare z w). split; [reflexivity|].
@@ -583,6 +583,8 @@ Proof.
       (rewrite Z2Nat.inj_add by assumption); (rewrite Nat.add_comm, Nat.add_sub);
       (eexists; split; [reflexivity | split; [reflexivity | constructor; [reflexivity | assumption]]]).
   - (* FAILWITH: not typed by tc_simple *) discriminate Htc.
+  - (* LAMBDA *) discriminate Htc.
+  - (* APPLY *) discriminate Htc.
 Qed.
 
 (* ------------------------------------------------------------------------------------------ *)
@@ -893,6 +895,7 @@ Section Sim.
       destruct s as [|t r]; [discriminate|]. injection Htc as <-. inversion Hs as [|v ? rest ? Hv Hr]; subst.
       simpl. unfold py_exec_simple. change (v :: rest) with ([v] ++ rest). rewrite (pop_mkst pre [v] rest 1 eq_refl).
       simpl. eauto.
+    - (* EXEC: outside the fragment (LAMBDA is already discharged: typecheck_nr rejects it) *) discriminate Htc.
   Qed.
 End Sim.
 
@@ -1006,7 +1009,7 @@ Qed.
 
 Lemma tc_nr_sub c : forall s R, typecheck_gen true c s = Some R -> typecheck_gen false c s = Some R.
 Proof.
-  induction c; intros s R H; cbn [typecheck_gen] in *;
+  induction c; intros s R H; cbn [typecheck_gen] in *; try discriminate H;
     try (unfold option_map in *;
          match type of H with context [tc_simple true ?i ?s] =>
            destruct (tc_simple true i s) eqn:E; [rewrite (tc_simple_sub _ _ _ E); assumption | discriminate] end);
